@@ -11,7 +11,7 @@ from .. import zonalrules as Z
 def check(prog, rep):
     m, pub, fs = Z.zonal_funcs(prog, 'crosstab')
     entry = lambda f: 'crosstab'   # noqa
-    Z.check_cursors(rep, fs, 'C04', entry)
+    Z.check_cursors(rep, fs, 'C04', entry, prog=prog)
     Z.check_zone_labels(prog, rep, fs, entry)
     Z.check_validity(prog, rep, fs, entry)
     Z.check_unique_zones(prog, rep, fs, entry)
@@ -20,7 +20,7 @@ def check(prog, rep):
     Z.check_positional_id_use(prog, rep, fs, entry)
     Z.check_crosstab_keys(prog, rep, m, 'crosstab')
     Z.check_crosstab_merge(prog, rep, m, 'crosstab')
-    rep.floor('Z1', 3)
+    Z.cursor_floor(prog, rep, pub, 2)
     rep.floor('Z2', 2)
     rep.floor('Z3', 3)
     rep.floor('Z4', 2)
